@@ -427,6 +427,28 @@ impl Driver {
             }
             self.started_price = Some(public_a);
         }
+        // MintPrice repeats Config: public and discount prices (and the attached whitelist's own price)
+        if let Some(mp) = self.w.mint_price_q() {
+            if mp["public_price"] != a["mint_price"] || (mp["discount_price"].is_null() != a["discount_price"].is_null())
+                || (!a["discount_price"].is_null() && mp["discount_price"] != a["discount_price"])
+            {
+                self.violate("C07:mint-price-query-differs-from-config", format!("after {:?}: MintPrice {} vs Config mint_price {} discount_price {}", op, mp, a["mint_price"], a["discount_price"]));
+            }
+            let wl_active = self.wl_active_now(&a);
+            if let Some(wl) = a["whitelist"].as_str() {
+                if let Ok(wc) = self.w.app.wrap().query_wasm_smart::<Value>(wl.to_string(), &json!({"config": {}})) {
+                    if mp["whitelist_price"] != wc["mint_price"] || (wl_active && mp["current_price"] != wc["mint_price"]) {
+                        self.violate("C07:mint-price-query-differs-from-whitelist", format!("after {:?}: MintPrice {} but the attached whitelist (active: {}) asks {}", op, mp, wl_active, wc["mint_price"]));
+                    }
+                }
+            }
+            if !wl_active {
+                let expect = if a["discount_price"].is_null() { &a["mint_price"] } else { &a["discount_price"] };
+                if &mp["current_price"] != expect {
+                    self.violate("C07:mint-price-query-current-wrong", format!("after {:?}: MintPrice current {} but Config says discount {} / public {}", op, mp["current_price"], a["discount_price"], a["mint_price"]));
+                }
+            }
+        }
         // the advertised current price for a public buyer never exceeds the public price
         if !self.static_overcharge_reported && !self.wl_active_now(&a) {
             if let Some(mp) = self.w.mint_price_q() {
@@ -494,7 +516,7 @@ impl Driver {
 }
 
 // ---------- sale cases ----------
-pub fn run_sale(c: &SaleCase, gen: Option<(&mut Rng, usize)>) -> CaseResult {
+pub fn run_sale(c: &SaleCase, gen: Option<(&mut Rng, usize, &[u128])>) -> CaseResult {
     let mut w = match SaleWorld::new(cfg_of(c)) {
         Ok(w) => w,
         Err(_) => {
@@ -512,9 +534,9 @@ pub fn run_sale(c: &SaleCase, gen: Option<(&mut Rng, usize)>) -> CaseResult {
             break;
         }
     }
-    if let Some((rng, len)) = gen {
+    if let Some((rng, len, lits)) = gen {
         for _ in 0..len {
-            let st = next_step(rng, &d, c);
+            let st = next_step(rng, &d, c, lits);
             d.step(&st);
             if d.res.violations.len() > 5 {
                 break;
@@ -546,7 +568,7 @@ fn pick_buyer(rng: &mut Rng, d: &Driver, c: &SaleCase) -> String {
 }
 
 /// next step of a structured random history, chosen from what the contracts report now
-fn next_step(rng: &mut Rng, d: &Driver, c: &SaleCase) -> Step {
+fn next_step(rng: &mut Rng, d: &Driver, c: &SaleCase, lits: &[u128]) -> Step {
     let t0 = d.w.t0;
     let now = d.now();
     let start = d.start();
@@ -576,6 +598,19 @@ fn next_step(rng: &mut Rng, d: &Driver, c: &SaleCase) -> Step {
                     }
                 }
             }
+            // every small integer literal of the handlers' source, read as hours / minutes after
+            // the last discount change (a changed cooldown constant moves the boundary there)
+            if let Some(l) = d.last_change {
+                if !lits.is_empty() && rng.chance(1, 3) {
+                    let k = *rng.pick(lits) as u64;
+                    let unit = if rng.chance(1, 2) { 3600 * S } else { 60 * S };
+                    for t in [l + k * unit - 1, l + k * unit, l + k * unit + 1] {
+                        if t > now {
+                            targets.push(t);
+                        }
+                    }
+                }
+            }
             let t = if targets.is_empty() || rng.chance(1, 4) {
                 match rng.below(4) {
                     0 => now + rng.range(1, 600) * S + rng.below(S),
@@ -598,6 +633,10 @@ fn next_step(rng: &mut Rng, d: &Driver, c: &SaleCase) -> Step {
                     None => around(rng, public),
                 },
                 6 => rng.range(min as u64, (public.max(min) + 40) as u64) as u128,
+                _ if !lits.is_empty() && rng.chance(1, 3) => {
+                    let l = *rng.pick(lits);
+                    around(rng, l)
+                }
                 _ => public.saturating_sub(rng.range(1, 15) as u128),
             };
             Step::Op(Op::UpdateMintPrice { who: admin_or(rng), price })
@@ -730,7 +769,7 @@ pub fn run_create(c: &CreateCase) -> CaseResult {
     r
 }
 
-pub fn run_case(c: &Case, gen: Option<(&mut Rng, usize)>) -> CaseResult {
+pub fn run_case(c: &Case, gen: Option<(&mut Rng, usize, &[u128])>) -> CaseResult {
     match c {
         Case::Sale(s) => run_sale(s, gen),
         Case::Create(k) => run_create(k),
@@ -956,6 +995,9 @@ pub fn run(a: &Args) {
     let out = OutDir::new(&a.out);
     let mut rep = Report { property: "C07".into(), tier: a.tier.clone(), seed: a.seed, ..Default::default() };
     let mut rng = Rng::new(a.seed);
+    let mut files: Vec<String> = VARIANTS.iter().map(|v| format!("contracts/minters/{}/src/contract.rs", v.name)).collect();
+    files.push("contracts/factories/vending-factory/src/contract.rs".into());
+    let lits: Vec<u128> = harvest_literals(&files.iter().map(|s| s.as_str()).collect::<Vec<_>>()).into_iter().filter(|x| *x >= 1 && *x <= 1000).collect();
     // (case, number of generated steps to append online)
     let cases: Vec<(Case, usize)> = if let Some(p) = &a.replay {
         #[derive(Deserialize)]
@@ -966,7 +1008,7 @@ pub fn run(a: &Args) {
         vec![(rf.case, 0)]
     } else {
         let mut v: Vec<(Case, usize)> = corpus().into_iter().map(|c| (c, 0)).collect();
-        let per_variant = if a.thorough() { 40 } else { 4 };
+        let per_variant = if a.thorough() { 80 } else { 12 };
         for variant in 0..6 {
             for _ in 0..per_variant {
                 let len = rng.range(35, 60) as usize;
@@ -979,7 +1021,7 @@ pub fn run(a: &Args) {
     let mut nviol = 0;
     let mut seen_keys: BTreeMap<String, u32> = BTreeMap::new();
     for (i, (c, len)) in cases.iter().enumerate() {
-        let r = run_case(c, if *len > 0 { Some((&mut rng, *len)) } else { None });
+        let r = run_case(c, if *len > 0 { Some((&mut rng, *len, &lits[..])) } else { None });
         rep.evaluations += r.steps;
         rep.distinct_nontrivial += r.ok_steps;
         for (k, v) in &r.hist {
